@@ -19,9 +19,17 @@ TRUNC = r"Iterator>?::(take|skip|filter|step_by|rev|take_while|skip_while|filter
 OK_UNIT = ("agg", "std::result::Result", "Ok", (("0", ("tuple", ())),))
 
 
+class _Roles(dict):
+    """role -> parameter index; .term[role] is the term that denotes the role inside the function: the parameter itself, or a
+    field of a parameter that bundles the visited set and the stack in one struct of two `&mut` references"""
+    pass
+
+
 def _roles(body):
     """parameters of a search function by type: graph, vertex, visited set, stack, (direction)"""
-    out = {}
+    F = body.facts
+    out = _Roles()
+    out.term = {}
     for i in range(1, body.argc + 1):
         ty = body.locals[i]["ty"]
         r = None
@@ -35,9 +43,27 @@ def _roles(body):
             r = "st"
         elif ty.endswith("direction::Direction"):
             r = "dir"
+        else:
+            # a private struct holding (&mut HashSet<VertexId>, &mut Vec<VertexId>)
+            adt = re.sub(r"^(&('\w+ )?(mut )?)+", "", ty).split("<")[0]
+            a = F.adts.get(adt)
+            if a and a["kind"] == "struct" and len(a["variants"]) == 1 and len(a["variants"][0]["fields"]) == 2:
+                got = {}
+                for f in a["variants"][0]["fields"]:
+                    fty = f.get("ty") or ""
+                    if "HashSet<" in fty and "&" in fty:
+                        got["vis"] = f["name"]
+                    elif "std::vec::Vec<" in fty and "VertexId" in fty and "&" in fty:
+                        got["st"] = f["name"]
+                if set(got) == {"vis", "st"} and "vis" not in out and "st" not in out:
+                    for rr, fname in got.items():
+                        out[rr] = i
+                        out.term[rr] = ("field", ("arg", i), fname)
+                    continue
         if r is None or r in out:
             return None
         out[r] = i
+        out.term[r] = ("arg", i)
     return out if {"g", "v", "vis", "st"} <= set(out) else None
 
 
@@ -53,7 +79,16 @@ def _dfs_body(F, fn):
             h = F.bodies[rt[1]]
             rh, rb = _roles(h), _roles(b)
             if rh and rb and "dir" in rh and len(rt[2]) == h.argc:
-                okd = all(rt[2][rh[r] - 1] == ("arg", rb[r]) for r in ("g", "v", "vis", "st"))
+                def _actual(r_):
+                    a_ = rt[2][rh[r_] - 1]
+                    t_ = rh.term[r_]
+                    if t_[0] == "field":
+                        # the wrapper passes a struct literal: take the field the helper reads
+                        while a_[0] in ("mut", "ref"):
+                            a_ = a_[1]
+                        return dict(a_[3]).get(t_[2]) if a_[0] == "agg" else None
+                    return a_
+                okd = all(_actual(r) == ("arg", rb[r]) for r in ("g", "v", "vis", "st"))
                 d = rt[2][rh["dir"] - 1]
                 if okd and d[0] == "agg" and d[1] == DIRT:
                     return h, rh, d[2]
@@ -84,7 +119,7 @@ def dfs_rule(ctx, fn, edges_fn, far_fn):
         if not ctx.check(direction == want, name + ":direction", "%s hands over to the shared search with Direction::%s" % (fn, direction), b.where(), detail=want):
             return
     tm = Terms(b)
-    A = {r: ("arg", i) for r, i in roles.items()}
+    A = {r: roles.term[r] for r in roles}
     g, v, vis, st, dirarg = A["g"], A["v"], A["vis"], A["st"], A.get("dir")
     tree = tree_of(F, b.path)
     iters_fn = edges_fn + "_iter"
@@ -145,7 +180,8 @@ def dfs_rule(ctx, fn, edges_fn, far_fn):
             ee = cap(edge) if rbody is not b else edge
             okf = _resolve(F, ft, far_fn, "incident_vertex", g, ee, direction, dirarg)
     ctx.check(okf, name + ":far-end", "the far end is not %s(edge) of each incident edge" % far_fn, (far_site or rec).where(), detail="%s(edge)" % far_fn)
-    same = all(ra[callee_roles[r] - 1] == A[r] for r in ("g", "vis", "st")) and ("dir" not in callee_roles or ra[callee_roles["dir"] - 1] == dirarg)
+    # (a role held in a bundling struct is handed on by passing the struct parameter itself)
+    same = all(ra[callee_roles[r] - 1] == (A[r] if callee_roles.term[r][0] == "arg" else ("arg", roles[r])) for r in ("g", "vis", "st")) and ("dir" not in callee_roles or ra[callee_roles["dir"] - 1] == dirarg)
     ctx.check(okf and same, name + ":recursion", "recursion is not on (graph, far end, same visited set, same stack%s)" % (", same direction" if dirarg else ""), rec.where(), detail="dfs(far end)")
     # -- errors leave the function
     def leaves(body, c, btm):
